@@ -511,13 +511,41 @@ func c09Exhaustive3(t *testing.T, backends, starts []string, limitsList [][]int,
 // TestC09Preempt3 is the quick-tier slice of the three-operation family: memory backend, one deployed revision, history
 // limit 1 for all three upgrades (486 schedules).
 func TestC09Preempt3(t *testing.T) {
-	evid.Extra("rule", "C09 (bounded-exhaustive, quick slice): three upgrades with history limit 1 from one deployed revision on the memory backend, every schedule X^i Y* Z^j X* Z* (six assignments, i, j in 0..8).")
+	evid.Extra("rule", "C09 (bounded-exhaustive, quick slice): three upgrades with history limit 1 from one deployed revision on the memory backend, every schedule X^i Y* Z^j X* Z* (six assignments, i, j in 0..8); and a failing upgrade (readiness wait) next to a plain upgrade on the Secret and ConfigMap backends, every schedule X^i Y* X* (both roles, i in 0..44).")
 	shard, shards := 0, 1
 	if v := os.Getenv("VERIF_SHARDS"); v != "" {
 		fmt.Sscan(v, &shards)
 		fmt.Sscan(os.Getenv("VERIF_SHARD"), &shard)
 	}
 	n := c09Exhaustive3(t, []string{"memory"}, []string{"deployed"}, [][]int{{1, 1, 1}}, shard, shards)
+	// ... and an upgrade whose readiness wait fails next to a plain upgrade, on the backends that hand out copies of the
+	// records: X runs i calls, Y runs to its end, X finishes (both roles, i over the whole length of an upgrade)
+	for _, backend := range []string{"secret", "configmap"} {
+		for failing := 0; failing < 2; failing++ {
+			for i := 0; i <= 44; i++ {
+				if (i+failing)%shards != shard {
+					continue
+				}
+				c := c09Case{Backend: backend, Start: "deployed"}
+				for k := 0; k < 2; k++ {
+					op := &world.Op{Kind: "upgrade", DisableHooks: true, Chart: c09Chart(k+1, k)}
+					if k == 0 {
+						op.Fault = world.Fault{Kind: "wait", K: 0}
+					}
+					c.Ops = append(c.Ops, op)
+				}
+				x, y := failing, 1-failing
+				for k := 0; k < i; k++ {
+					c.Schedule = append(c.Schedule, x)
+				}
+				for k := 0; k < 80; k++ {
+					c.Schedule = append(c.Schedule, y)
+				}
+				c09Run(t, c)
+				n++
+			}
+		}
+	}
 	evid.Extra("bounded_exhaustive_schedules_quick", n)
 }
 
